@@ -22,3 +22,16 @@ claim("C20", "property-based testing: generated operation histories against a di
       "next-queue-time, delivered counts, delivery order, exactly-once accounting, copy equality/independence and "
       "partition sums are checked after every step and by draining every queue at the end.",
       _TB, "DESIGN.md section 4 C20")
+
+claim("C02", "property-based testing: generated expression trees, differential vs 50-digit mpmath evaluation (Hypothesis)",
+      "Trees (depth <= 5, full operator set, clash / underscore / legacy identifiers) are printed in varied legal "
+      "spellings and evaluated through parse_expression, a general propensity, an assignment rule and a growth law "
+      "at 5 points each (12k trees quick / 120k thorough); the oracle evaluates the tree itself in 50-digit arithmetic "
+      "(no parser), with a stated finite-domain rule; unknown names must be rejected, unsupported constructs rejected "
+      "or still right.", _TB, "DESIGN.md section 4 C02")
+
+claim("C03", "property-based testing: generated reaction lists, stoichiometry by counting + derivative identity (Hypothesis)",
+      "Models with shuffled declaration order, repeats, catalysts, empty sides, delayed parts and every propensity type "
+      "(5k quick / 60k thorough): update arrays vs counted stoichiometry by name; interface and safe-interface "
+      "derivative vs sum (S+S_d) x own rate at sampled states; missing parameter values must make construction fail.",
+      _TB, "DESIGN.md section 4 C03")
